@@ -65,10 +65,30 @@ CHECK = Check(
         "series have one length T; the direct run (Kernel.init / Kernel.run on the prescribed parameter column and input "
         "block) does not panic and returns one row of T values per described output; output names and state names of the "
         "description are distinct (true of the whole catalogue; checked by C09's catalogue tie)",
-        "respond_total: KernelOK — the named model's InitialiseStates and Run never panic and Run fills a rectangular "
-        "block; everything else (any decoded request or decoder error, any lengths incl. 0, any state-row width) is covered",
+        "respond_total_request (the totality statement, PER REQUEST): KernelOKOn — the named model's InitialiseStates and Run do not "
+        "panic on the parameter column (named value, default otherwise) and the input block (supplied series, T zeros otherwise) that "
+        "THIS request leads to, and Run fills one row of T values per described output (initialise_ok_shape: whenever Initialise "
+        "succeeds, params.length = number of described parameters, inputs.length = number of described inputs, all rows of one length T); "
+        "everything else (any decoded request or decoder error, any lengths incl. 0, any state-row width) is covered. "
+        "respond_total_shaped asks it of every well-shaped call, respond_total (the former statement, now a corollary) of EVERY "
+        "parameter column and input block — which says nothing for a model one of whose columns panics (GR4J x4 = 0)",
         "nesting_spec: the view is reachable (root array with extents ≥ 1 or any chain of in-bounds, possibly stepped "
-        "slices) and lies in a storage window that covers its root shape (ArrOK); any shift dimension inside the rank",
+        "slices: every extent of every view ≥ 1) and lies in a storage window that covers its root shape (ArrOK); any shift dimension "
+        "inside the rank. NOT covered by nesting_spec: RESHAPED views (MustReshape / Reshape of a view) and views with a zero extent; "
+        "the reshapes that encodeResults itself performs (outputs 1×nOut×T → nOut×T, rows → [T], states 1×W → [W], incl. nOut, T, W = 0) "
+        "are covered separately by encode_spec; the JSA family feeds reshaped views to the real code and the compiled model",
+        "'equal to the direct run' (respond_eq_direct) holds by the SHAPE of respond: the model's outputs are K.run on the prescribed "
+        "column/block, where K is the abstract kernel table; that K.run IS the real one-cell Run is not a theorem — it is the JSON "
+        "family of the harness (the table is filled by a direct one-cell run through the Go API and the real runner's response is "
+        "compared with it)",
+    ],
+    partial=[
+        "totality 'for every byte string … does not crash' is FALSE for the code on requests whose direct run itself panics in the kernel "
+        "goroutine: known finding KF-C17-kernel-panic (scope JSON:kernel-panic; GR4J with default x4 = 0, DateGenerator with default "
+        "month 0, zero-length series for InstreamDissolvedNutrientDecay / StorageTrapAll) — respond_total_request carries KernelOKOn, "
+        "kernel_crash_states describes exactly what is written in those cases",
+        "models with table parameters cannot be run at all: known finding KF-C17-dimensions (scope JSON:dimensions; every request naming "
+        "RatingCurvePartition or Storage dies in the kernel goroutine)",
     ],
 )
 
@@ -80,8 +100,9 @@ META = dict(
          "default, supplied series or zeros, exactly one log line per defaulted parameter and zero-filled input in "
          "description order; encode_spec — encodeResults' reshapes / row slices / JsonSafeArray calls on the n-d array "
          "model yield the object-or-array document for every nOut, T, W (0 included); respond_eq_direct — the response "
-         "= outputs and all final states of the direct one-cell run, bit for bit; respond_total — every decoded request "
-         "or decoder error yields exactly one document and returns unless the model's own code panics; "
+         "= outputs and all final states of the direct one-cell run, bit for bit; respond_total_request — every decoded request "
+         "or decoder error yields exactly one document and returns unless the model's own code panics ON THAT REQUEST "
+         "(parameter column and input block fixed by initialise_ok_shape); "
          "problem_reports / input_problems_reported / kernel_crash_states describe every other ending. The model is "
          "tied to the real RunSingleModelJSON / JsonSafeArray / ow-single on every run by differential execution in "
          "child processes, and an independent oracle compares with a direct run through the Go API.",
